@@ -102,8 +102,8 @@ def _prune_cache(keep):
     if not os.path.isdir(d):
         return
     ents = sorted((os.path.getmtime(os.path.join(d, e)), e) for e in os.listdir(d))
-    for _, e in ents[:-30]:
-        if e != keep:
+    for mt, e in ents[:-30]:
+        if e != keep and time.time() - mt > 3600:     # never remove a build another running check may be using
             shutil.rmtree(os.path.join(d, e), ignore_errors=True)
 
 
@@ -171,8 +171,8 @@ def build_leaf(name, sources, extra_flags=""):
         # prune old leaf dirs
         d = os.path.join(CACHE, "leaf")
         ents = sorted((os.path.getmtime(os.path.join(d, x)), x) for x in os.listdir(d))
-        for _, x in ents[:-30]:
-            if x != th:
+        for mt, x in ents[:-30]:
+            if x != th and time.time() - mt > 3600:
                 shutil.rmtree(os.path.join(d, x), ignore_errors=True)
     return out
 
@@ -281,8 +281,11 @@ def coq_check_props(prop, extra_deps=()):
             res["assumptions"][t] = ass[i].split("\n")[0] if i < len(ass) and ass[i].startswith("Closed") else (
                 ass[i] if i < len(ass) else "not printed")
     else:
-        m = re.search(r'line (\d+)', e)
-        if m:
+        mdep = re.search(r'File "\./([^"]+)", line (\d+)', out) if rc != 0 else None
+        m = None if mdep else re.search(r'line (\d+)', e)
+        if mdep:
+            res["failed_theorem"] = "dependency %s line %s" % (mdep.group(1), mdep.group(2))
+        elif m:
             ln = int(m.group(1))
             raw = open(src).read().split("\n")
             name = None
